@@ -50,7 +50,9 @@ func rayIntersectsTri(tri intersectingTri, ray geometry.Ray, minDistance, maxDis
 		return false
 	}
 
-	if tVal > maxDistance {
+	// tVal is measured from ray.At(minDistance); the range end is measured
+	// from the ray origin, like the distance that is reported
+	if tVal+minDistance > maxDistance {
 		return false
 	}
 
